@@ -407,6 +407,29 @@ fn variants(rep: &mut Report) {
         }
         let x = CTup2(1u8, 0xdead_beef_u64);
         chk!(x.into_tuple() == (1u8, 0xdead_beef_u64) && x == CTup2::from((1u8, 0xdead_beef_u64)), "C12:ctup-order", "copy tuple");
+        // every permutation of field types of different size and alignment: a tuple's own layout is the
+        // compiler's business, the CTup's is declaration order; conversion must go field by field
+        macro_rules! mixed {
+            ($($t:ty = $v:expr),+ ; $ctup:ident) => {{
+                let tup = ($($v as $t),+ ,);
+                let c: $ctup<$($t),+> = tup.into();
+                let back = c.into_tuple();
+                chk!(back == tup, "C12:ctup-order", concat!("mixed-alignment ", stringify!($ctup), "<", stringify!($($t),+), "> changed its payload"));
+                let c2: $ctup<$($t),+> = back.into();
+                chk!(c2 == c, "C12:ctup-order", concat!("mixed-alignment ", stringify!($ctup), " round trip"));
+                rep.add("ctup_cases", 1);
+            }};
+        }
+        mixed!(u8 = 1, u16 = 0x0202, u32 = 0x33333333u32 ; CTup3);
+        mixed!(u32 = 0x33333333u32, u8 = 1, u16 = 0x0202 ; CTup3);
+        mixed!(u16 = 0x0202, u32 = 0x33333333u32, u8 = 1 ; CTup3);
+        mixed!(u8 = 1, u64 = 0x4444444444444444u64, u8 = 2 ; CTup3);
+        mixed!(u8 = 1, u16 = 0x0202, u32 = 0x33333333u32, u64 = 0x4444444444444444u64 ; CTup4);
+        mixed!(u64 = 0x4444444444444444u64, u8 = 1, u32 = 0x33333333u32, u16 = 0x0202 ; CTup4);
+        mixed!(u16 = 0x0202, u8 = 1, u64 = 0x4444444444444444u64, u32 = 0x33333333u32 ; CTup4);
+        mixed!(u8 = 1, u8 = 2, u16 = 0x0303, u32 = 0x44444444u32 ; CTup4);
+        mixed!(u8 = 9, u32 = 0x33333333u32 ; CTup2);
+        mixed!(u16 = 0x0202, u64 = 0x4444444444444444u64 ; CTup2);
         rep.add("ctup_cases", 6);
     }
     let (leaked, multi) = tracked::since(mark);
